@@ -2,6 +2,7 @@ package props
 
 import (
 	"fmt"
+	"strings"
 	"testing"
 
 	"github.com/beevik/etree"
@@ -30,7 +31,7 @@ var logoutFaults = map[string][]string{
 	"destination": append(append([]string{"wrong", "slash", "case", "space", "lspace", "acs", "idp-slo"}, cfgVariants...), urlVariants...),
 	"issuer":      append(append([]string{"absent", "wrong", "slash", "case", "space", "empty"}, cfgVariants...), urlVariants...),
 	"status":      {"absent"},
-	"statuscode":  {"absent", "Requester", "success-case", "empty", "valueabsent", "PartialLogout", "nested-success", "nested-success-deep", "success-space"},
+	"statuscode":  {"absent", "Requester", "success-case", "empty", "valueabsent", "PartialLogout", "nested-success", "nested-success-deep", "success-space", "Requester+message", "PartialLogout+message", "valueabsent+message"},
 }
 
 func applyLogoutFault(m *h.LogoutModel, sp h.SPConfig, f Fault) (ErrSpec, bool) {
@@ -78,6 +79,11 @@ func applyLogoutFault(m *h.LogoutModel, sp h.SPConfig, f Fault) (ErrSpec, bool) 
 		m.HasStatus = false
 		return ErrSpec{Type: "ErrMissingElement", Tag: "Status"}, true
 	case "statuscode":
+		if strings.HasSuffix(f.Variant, "+message") {
+			// the IdP explains itself (StatusMessage): the rejection still names the StatusCode through the typed error
+			m.StatusMsg = h.S("The request could not be performed: the principal is unknown.")
+			f.Variant = strings.TrimSuffix(f.Variant, "+message")
+		}
 		switch f.Variant {
 		case "absent":
 			m.HasCode = false
